@@ -1044,7 +1044,8 @@ pub fn strategy(kind: Kind, tier: Tier) -> impl Strategy<Value = NbCase> {
 // where a log-normaliser computed as ln(prod_j 2 pi sigma_j) instead of sum_j ln(2 pi sigma_j)
 // under-/overflows; the reference posterior is a sum of logarithms in f64.
 
-pub const WIDE_P: [usize; 4] = [8, 16, 64, 128];
+/// feature counts of the wide stratum: around the lane / block widths 4, 8, 16, 32, 64, 128 (multiples, +-1, odd sizes)
+pub const WIDE_P: [usize; 20] = [5, 6, 7, 8, 9, 11, 13, 15, 16, 17, 30, 31, 33, 63, 64, 65, 100, 127, 128, 129];
 pub const WIDE_EXPONENTS: [i8; 5] = [-3, -2, 0, 2, 3];
 /// f32 models: theta within 1e-5*max|x_j|, sigma within 1e-4*(max|x_j|*spread_j + spread_j^2) + 1e-5*|sigma|
 pub const TOL_THETA_F32: f64 = 1e-5;
@@ -1075,6 +1076,10 @@ pub struct WideCase {
     pub fit_layout: Layout,
     #[serde(default)]
     pub batch_layouts: Vec<Layout>,
+}
+
+fn c_p_of(w: &WideCase) -> usize {
+    w.p
 }
 
 fn derive_wide(w: &WideCase) -> Option<(NbCase, Vec<i8>)> {
@@ -1198,6 +1203,8 @@ pub fn check_wide(w: &WideCase, obs: &mut Obs) {
         17..=64 => "wide_p_64",
         _ => "wide_p_128",
     });
+    obs.class_if(c_p_of(w) % 4 != 0, "wide_p_not_multiple_of_4");
+    obs.class_if(c_p_of(w) % 8 != 0, "wide_p_not_multiple_of_8");
     obs.class_if(w.f32_model, "wide_f32_model");
     obs.class_if(!w.f32_model, "wide_f64_model");
     obs.class_if(w.exponent.is_none(), "wide_mixed_feature_scales");
